@@ -412,6 +412,11 @@ func (vc *VC) evalAppend(s *State, call *ast.CallExpr) *Term {
 		bl := sliceLen(base)
 		el := sliceLen(extra)
 		s.assume(Forall([]*Term{i}, Eq(Select(ne, i), Ite(Lt(i, bl), Select(sliceElems(base), i), Select(sliceElems(extra), Sub(i, bl)))), []*Term{Select(ne, i)}))
+		// the same fact for the prefix, triggered from the base slice (no arithmetic in the instance: no matching loop)
+		j := BoundVar("aj", SInt)
+		if !(base.Op == "ctor" && base.Args[1].Op == "lit") {
+			s.assume(Forall([]*Term{j}, Implies(And(Le(IntLit(0), j), Lt(j, bl)), Eq(Select(ne, j), Select(sliceElems(base), j))), []*Term{Select(sliceElems(base), j)}))
+		}
 		nl := s.name("len", Add(bl, el))
 		return mkSlice(srt, ne, nl, newCap(nl), And(Sel(base, "isnil"), Eq(el, IntLit(0))))
 	}
